@@ -721,6 +721,39 @@ impl C15 {
                 }
             }
         }
+        // the pool's own vaults in each other's slot (alone, together with the owner's accounts, or one vault twice):
+        // every account belongs to the pool, but not to the slot
+        if let (Some(va), Some(vb)) = (c.idx("token_vault_a"), c.idx("token_vault_b")) {
+            let (ka, kb) = (v.ix.accounts[va].pubkey, v.ix.accounts[vb].pubkey);
+            let owners = (c.idx("token_owner_account_a"), c.idx("token_owner_account_b"));
+            let mut variants: Vec<(&str, Ix)> = Vec::new();
+            let mut x = v.ix.clone();
+            x.accounts[va].pubkey = kb;
+            x.accounts[vb].pubkey = ka;
+            variants.push(("vaults crossed", x.clone()));
+            if let (Some(oa), Some(ob)) = owners {
+                let (koa, kob) = (v.ix.accounts[oa].pubkey, v.ix.accounts[ob].pubkey);
+                x.accounts[oa].pubkey = kob;
+                x.accounts[ob].pubkey = koa;
+                variants.push(("vaults and owner accounts crossed", x.clone()));
+                let mut y = v.ix.clone();
+                y.accounts[va].pubkey = kb;
+                y.accounts[oa].pubkey = kob;
+                variants.push(("vault B and the owner's B account on both sides", y));
+            }
+            let mut z = v.ix.clone();
+            z.accounts[vb].pubkey = ka;
+            variants.push(("vault A in both vault slots", z));
+            for (label, ixn) in variants {
+                let r = exec(l, ixn);
+                cov.eval(format!("{}|vault_slots|{}", name, label));
+                self.cell(format!("{} / token_vault_a + token_vault_b / {}", name, label), !r.ok);
+                if r.ok {
+                    out.push(v15("foreign_account_accepted", idx, format!("{}: succeeded with {} (the vault of the other token in a vault slot)", name, label)));
+                    return;
+                }
+            }
+        }
         // a position of ANOTHER pool together with its own token account, held by the same authority
         if let (Some(pi), Some(ti), Some(auth)) = (c.idx("position"), c.idx("position_token_account"), c.acct("position_authority")) {
             let cur_pool = l.data(&v.ix.accounts[pi].pubkey).and_then(decode::position).map(|p| p.whirlpool);
